@@ -166,9 +166,10 @@ def handle (sc obs : Json) : Json :=
       let model := run St.init ops
       let agree := model.map canon == impl.map canon
       Json.mkObj [("agree", Json.bool agree),
-        ("spec", kvJson "C14" (c14 ops impl)),
-        ("specModel", kvJson "C14" (c14 ops model)),
-        ("nontrivial", kvJson "C14" (exercisesIsolation ops)),
+        -- a sequential history has exactly one linearisation (program order): C13 asks of it what C14 asks
+        ("spec", Json.mkObj [("C14", Json.bool (c14 ops impl)), ("C13", Json.bool (c14 ops impl))]),
+        ("specModel", Json.mkObj [("C14", Json.bool (c14 ops model)), ("C13", Json.bool (c14 ops model))]),
+        ("nontrivial", Json.mkObj [("C14", Json.bool (exercisesIsolation ops)), ("C13", Json.bool (exercisesIsolation ops))]),
         ("model", toJson (model.map fun r => encResp s.keys (canon r)))]
     | .error e, _ => bad e
     | _, .error e => bad e
